@@ -59,6 +59,7 @@ package lexer
 //@   requires lex != nil
 //@   ensures result1 != nil ==> uf("lexer_error", "Bool", result1) [C06]
 //@   ensures result1 == nil ==> result0 != nil && fresh(result0) && plInv(result0) && result0.rawCursor == 0 && result0.cursor == 0
+//@   ensures result1 == nil ==> fresh(result0.tokens)
 //@   ensures result1 == nil ==> forall(t, result0.elide[t] == exists(i, 0, len(elide), elide[i] == t))
 //@   loop 1 invariant r != nil && fresh(r) && r.elide != nil && fresh(r.elide) && len(r.tokens) == 0 && r.Checkpoint == Checkpoint{0, 0, 0} && -1 <= rangeindex && rangeindex < len(elide)
 //@   loop 1 invariant forall(t, r.elide[t] == exists(i, 0, rangeindex+1, elide[i] == t))
